@@ -59,7 +59,7 @@ class Lock:
 
 def run(cmd, cwd=None, timeout=None, env=None, check=False, input=None):
     e = dict(os.environ)
-    e.update({"CARGO_NET_OFFLINE": "true", "LC_ALL": "C.UTF-8"})
+    e.update({"CARGO_NET_OFFLINE": "true", "LC_ALL": "C.UTF-8", "VERIF_SCRATCH": os.path.join(BUILD, "tmp")})
     if env:
         e.update(env)
     p = subprocess.run(cmd, cwd=cwd, timeout=timeout, env=e, stdout=subprocess.PIPE, stderr=subprocess.STDOUT,
@@ -311,7 +311,7 @@ def run_lines(cmd_prefix, cases, timeout_s=10, extra_env=None):
         cmd = list(cmd_prefix)
         try:
             p = subprocess.run(cmd + [path], stdout=subprocess.PIPE, stderr=subprocess.PIPE,
-                               env=dict(os.environ, **(extra_env or {})),
+                               env=dict(os.environ, VERIF_SCRATCH=os.path.join(BUILD, "tmp"), **(extra_env or {})),
                                timeout=max(900, timeout_s * 4 + len(cases) * 2))
             out = p.stdout.decode("utf-8", "replace").split("\n")
             rc = p.returncode
